@@ -83,11 +83,25 @@ def run_case(case):
         try:
             with common.time_limit(12):
                 w.peer_calls_cap = w.counters.get("peer.solve", 0) + cap + 50
+                n_inputs = len(w.peer_inputs)
                 sat, exc = common.synth(w, blk, "IterateSATGen", cap + 1)
                 if exc is not None:
                     return common.result_base(w, outcome="skip", reason="exception(C08):" + type(exc).__name__)
+                # --- spot check, also for designs too big to cycle through: every sequence IterateSATGen returned is one
+                # assignment of the trial-sequence variables; with those fixed, the complete formula (exactly the clauses the
+                # library handed to its solver in the first round) must have exactly one model
+                spot = spot_check(w, blk, n_inputs, sat)
+                if spot is not None:
+                    sig = "C03/IterateSATGen/" + spot[0]
+                    try:
+                        from .. import refsem
+                        sig = common.with_family(sig, refsem.elaborate(ast))
+                    except Exception:   # noqa
+                        pass
+                    return common.result_base(w, outcome="violation", signature=sig, nontrivial=True, key=str((dast.skeleton(ast), "spot")),
+                                              detail=spot[1] + " ; design=" + dast.describe(ast))
                 if len(sat) > cap:
-                    return common.result_base(w, outcome="skip", reason="too-big")
+                    return common.result_base(w, outcome="skip", reason="too-big", nontrivial=False)
                 w.peer_calls_cap = None
                 # learn M = number of (full / projected) models the fake sees, with a one-sample call
                 first, exc = common.synth(w, blk, case["sampler"], 1)
@@ -138,6 +152,48 @@ def run_case(case):
             return base
         base["outcome"] = "ok"
         return base
+
+
+def spot_check(w, blk, n_inputs, sat, max_seqs=6):
+    """(class, detail) if some returned sequence has several models of the complete formula, else None."""
+    import pycryptosat
+    rounds = w.peer_inputs[n_inputs:]
+    models = w.peer_models[-len(rounds):] if rounds else []
+    if not rounds or not sat:
+        return None
+    clauses = rounds[0][1]
+    try:
+        support = blk.variables_per_sample()
+    except Exception:   # noqa
+        return None
+    nvars = max([abs(l) for c in clauses for l in c] + [support])
+    checked = 0
+    for r, model in enumerate(models):
+        if model is None or checked >= max_seqs or r >= len(sat):
+            break
+        units = [[v if (v < len(model) and model[v]) else -v] for v in range(1, support + 1)]
+        s = pycryptosat.Solver(confl_limit=200000)
+        for c in clauses:
+            s.add_clause(c)
+        for u in units:
+            s.add_clause(u)
+        ok, sol = s.solve()
+        if ok is None:
+            return None
+        checked += 1
+        if not ok:
+            continue        # cannot happen for a model the peer itself produced; nothing to say
+        sol = list(sol) + [False] * (nvars + 1 - len(sol))
+        s.add_clause([(-v if sol[v] else v) for v in range(1, nvars + 1)])
+        ok2, sol2 = s.solve()
+        if ok2:
+            sol2 = list(sol2) + [False] * (nvars + 1 - len(sol2))
+            free = [v for v in range(support + 1, nvars + 1) if sol[v] != sol2[v]]
+            w.count("spot-checked", checked)
+            return ("sequence-has-several-models/spot", "sequence %d returned by IterateSATGen (%s) has at least two models of the complete formula: with the %d trial-sequence variables fixed, auxiliary variable(s) %s can still take both values" % (
+                r, json.dumps(sat[r], default=str)[:200], support, free[:6]))
+    w.count("spot-checked", checked)
+    return None
 
 
 def w_model_cache_values(w):
